@@ -19,7 +19,6 @@ import (
 	"github.com/alttpo/snes/emulator"
 	"github.com/alttpo/snes/emulator/bus"
 	"github.com/alttpo/snes/emulator/cpu65c816"
-	"github.com/alttpo/snes/emulator/cpualt"
 	"github.com/alttpo/snes/mapping/util"
 
 	"verif/internal/mem"
@@ -396,7 +395,8 @@ func sharedDigest() [4]uint64 {
 	var msg uint64 = 1469598103934665603
 	msg = mixStr(msg, util.ErrUnmappedAddress.Error())
 	msg = mixStr(msg, fmt.Sprintf("%p", util.ErrUnmappedAddress))
-	return [4]uint64{cpu65c816.VerifSharedStateDigest(), cpualt.VerifSharedStateDigest(), snes.VerifSharedStateDigest(), msg}
+	d := libSharedDigest() // (zeros unless built with the library's hooks: see hooks_on.go)
+	return [4]uint64{d[0], d[1], d[2], msg}
 }
 
 func C18(r *vf.Run) {
@@ -637,6 +637,11 @@ func C18(r *vf.Run) {
 		} else {
 			r.CellN("callbacks-in-progress-at-once", int64(atomic.LoadInt32(&arrived)))
 		}
+	}
+	r.SetExtra("library_hooks_build", hooksBuild)
+	if exe := os.Getenv("VERIF_BIN_HOOKS"); exe != "" && !hooksBuild {
+		// the same monitor on the build that has the library's shared-state digest hooks
+		runChildExe(r, exe, "library-hooks-build")
 	}
 	r.SetExtra("operations", totalOps)
 	r.SetExtra("instances_per_kind", maxG)
